@@ -17,6 +17,7 @@
      Q tag CG kind sc r c ps bind Binv arg obs eps    column-representation glue with the oracle built from Binv
                                                       (kind ROW|COL: arg = index; SOLVE|MULT|MULTT: arg = vector id)
      Q tag RG kind sc r c ps ids Minv arg obs eps     row-representation glue with the oracle built from Minv
+                                                      (kinds COLF | SOLVEF | MULTF: the repaired models *_fixed)
    For CG / RG the verdict is check_close eps (model prediction) obs. *)
 open Zutil
 
@@ -128,6 +129,7 @@ let () =
              let pred =
                match kd with
                | "MULT" -> Model.mult_rowrep ps ids (vec arg)
+               | "MULTF" -> Model.mult_rowrep_fixed sc r c ps ids (vec arg)
                | "MULTT" -> Model.multT_rowrep sc r c ps ids (vec arg)
                | _ ->
                  let minv = mat minv in
@@ -135,7 +137,9 @@ let () =
                  (match kd with
                   | "ROW" -> Model.binv_row_rowrep solve sc r c ps ids (nat arg)
                   | "COL" -> Model.binv_col_rowrep cosolve sc r c ps ids (nat arg)
+                  | "COLF" -> Model.binv_col_rowrep_fixed cosolve sc r c ps ids (nat arg)
                   | "SOLVE" -> Model.binv_times_vec_rowrep cosolve sc r c ps ids (vec arg)
+                  | "SOLVEF" -> Model.binv_times_vec_rowrep_fixed cosolve sc r c ps ids (vec arg)
                   | _ -> failwith ("bad RG kind " ^ kd))
              in
              Model.check_close (q_of_string eps) pred (vec obs)
